@@ -20,6 +20,10 @@ CodeViol(r) ==
         \cup (IF ~r.key.ok \/ r.key.cat \in Categories(r.s) THEN {} ELSE {"sort_category_wrong"})
         \cup (IF ~r.key.ok \/ ~AsciiOnly(r.s) \/ r.key.cat \notin {1, 2} \/ F \cap {"PAT_TRACK", "PAT_HURDLES"} = {} \/ sd < 0
                  \/ r.key.num = sd THEN {} ELSE {"sort_distance_differs_from_code"})
+        \* relays are ordered by (leg) distance
+        \cup (IF ~r.key.ok \/ ~AsciiOnly(r.s) \/ "PAT_RELAYS" \notin F \/ r.key.cat # 5 THEN {} ELSE
+                LET p == RelayParts(r.s) IN
+                IF p.leg < 0 \/ r.key.num = p.leg THEN {} ELSE {"sort_distance_differs_from_code"})
         \cup (IF ~r.dist.ok \/ ~AsciiOnly(r.s) \/ "PAT_RELAYS" \notin F THEN {} ELSE
                 LET p == RelayParts(r.s) IN
                 IF p.leg < 0 \/ p.legs * p.leg > 1000000 \/ r.dist.v = p.legs * p.leg THEN {} ELSE {"relay_distance_not_legs_times_leg"})
